@@ -115,7 +115,7 @@ def run(ctx) -> None:
     write_nodes = [nid for nid, e in neff.items() if "FS_WRITE" in e and nid not in assert_nodes
                    and not any(k.startswith("VCS_MUTATE") for k in e)]
     commit_nodes = [nid for nid, e in neff.items() if any(k.startswith("VCS_MUTATE") for k in e)]
-    ctx.floor("R1", "rewrite nodes in cli._update", len(write_nodes), 2)
+    ctx.floor("R1", "rewrite nodes in cli._update", len(write_nodes), 1)
     ctx.floor("R1", "commit nodes in cli._update", len(commit_nodes), 1)
     pc_cut = PathCond(cfg, blocked_nodes=assert_nodes)
     for m in commit_nodes:
@@ -143,16 +143,12 @@ def run(ctx) -> None:
                       "cli._update: files are rewritten without a dirty check although a commit follows",
                       f"`{cfg.nodes[w].text()}` reached without assert_not_dirty when {f.to_dnf()}", loc=upd.loc(cfg.nodes[w].ast))
     # wiring of the arguments
-    fp_def = shapes.single_def(upd, "filepaths")
-    ok_fp = fp_def is not None and unparse(fp_def) in ("set(cfg.file_patterns.keys())", "set(cfg.file_patterns)")
-    ctx.check("R1", ok_fp, "cli._update: filepaths = set(cfg.file_patterns.keys())",
-              "cli._update: the checked/staged file set is not the configured file set",
-              f"filepaths is defined as `{unparse(fp_def) if fp_def is not None else None}`", loc=upd.loc())
+    FILESET = ("set(cfg.file_patterns.keys())", "set(cfg.file_patterns)")
     # the configured paths are compared with the paths git prints: they must be canonical relative paths
     from checks.c03 import canonical_keys_rule
     canonical_keys_rule(ctx, "R1")
     shapes.check_passthrough(ctx, "R1", "cli._update", "vcs.assert_not_dirty",
-                             {"vcs_api": "vcs_api", "filepaths": "filepaths", "allow_dirty": "allow_dirty"})
+                             {"vcs_api": "vcs_api", "filepaths": FILESET, "allow_dirty": "allow_dirty"})
     shapes.check_passthrough(ctx, "R1", "cli._try_update", "cli._update", {"allow_dirty": "allow_dirty", "cfg": "cfg"})
     shapes.check_passthrough(ctx, "R1", "cli.update", "cli._try_update", {"allow_dirty": "allow_dirty", "cfg": "cfg"})
 
